@@ -29,7 +29,7 @@ from pymbolic.mapper import IdentityMapper
 from pytools import UniqueNameGenerator
 
 from dagrt.codegen.dag_ast import (
-    ASTIdentityMapper, Block, StatementWrapper, get_statements_in_ast)
+    ASTIdentityMapper, Block, IfThen, StatementWrapper, get_statements_in_ast)
 
 
 __doc__ = """
@@ -60,8 +60,17 @@ class ASTStatementRewriter(ASTIdentityMapper):
         self.var_name_gen = var_name_gen
 
     def map_StatementWrapper(self, expr):
+        def wrap(stmt):
+            condition = getattr(stmt, "condition", True)
+            if condition is True or stmt is expr.statement:
+                return StatementWrapper(stmt)
+
+            # A guard on a newly introduced statement has to become part of
+            # the tree: the code generators only look at the tree structure.
+            return IfThen(condition, StatementWrapper(stmt.copy(condition=True)))
+
         new_statements = [
-                StatementWrapper(stmt)
+                wrap(stmt)
                 for stmt in self.map_statement(expr.statement)]
 
         if len(new_statements) > 1:
